@@ -76,6 +76,9 @@ def relate(base, ctx, rng):
             p = list(vals)
             rng.shuffle(p)
             relations.append(("permutation", dict(base, values=p), 1))
+        # already-sorted presentations (a sort that is skipped because the input "looks sorted" shows here)
+        relations.append(("permutation", dict(base, values=sorted(vals)), 1))
+        relations.append(("permutation", dict(base, values=sorted(vals, reverse=True)), 1))
     scales = (2, 1024) if alg == "multifit" else SCALES
     for c in rng.sample(scales, 2):
         if max(vals + [0]) * c * max(1, len(vals)) >= 2 ** 50:
